@@ -36,6 +36,7 @@ def run(ctx):
     rule_hashes(ctx, repo, it)
     rule_verify(ctx, repo, it)
     rule_multisig(ctx, repo, it)
+    common.rule_flag_defaults(ctx, repo, 'C06.F1', need_empty=True)
     # signature opcodes: the digest is taken over the script from the last executed CODESEPARATOR with the signature
     # push removed, for CHECKSIG and CHECKMULTISIG alike (the wiring obligations of C05 are opcode semantics too)
     from . import c05
